@@ -66,7 +66,8 @@ where
             "".into()
         };
         let name = if !self.name.is_empty() {
-            format!(":name \"{}\"", &self.name)
+            // escape like any other string literal so that the printed rule re-parses
+            format!(":name {}", Literal::String(self.name.clone()))
         } else {
             "".into()
         };
@@ -148,7 +149,8 @@ where
                     )
                 }
             }
-            GenericAction::Panic(_, msg) => write!(f, "(panic \"{msg}\")"),
+            // escape like any other string literal so that the printed action re-parses
+            GenericAction::Panic(_, msg) => write!(f, "(panic {})", Literal::String(msg.clone())),
             GenericAction::Expr(_, e) => write!(f, "{e}"),
         }
     }
